@@ -316,6 +316,66 @@ def pruned(w, t, fn):
         w.claim('returns the exotic cell itself', isinstance(got, Cell) and got.type_ == t and w.eq_seq(bits_of(w, got), data))
 
 
+@obligation('C10.aug_e', 'C10', cases=[{'present': pr, 'lead': ld, 'ydes': yd} for pr in (False, True) for ld in (0, 2) for yd in (True, False)],
+            fuc=[S + 'load_hashmap_aug_e', S + 'load_bit', S + 'load_ref'],
+            descr='HashmapAugE head (ahme_empty$0 extra:Y / ahme_root$1 root:^(HashmapAug n X Y) extra:Y) in the MIDDLE of a cell, after '
+                  '`lead` consumed references: the empty form returns no leaves and the root extra; the root form hands the referenced '
+                  'cell and the key length to the tree parser (recorded stub = its own contract, C10.node) and returns its result; in '
+                  'both forms exactly one bit, the reference (root form) and - when an extra deserializer is given - the extra:Y that '
+                  'FOLLOWS are consumed, the rest of the slice stays')
+def aug_e(w, present, lead, ydes):
+    P_ = importlib.import_module("pytoniq_core.boc.hashmap.parse")
+    extra = w.bits('extraY', 8)
+    r = w.int('r', 0, 900)
+    rest = w.bits('R', r)
+    m = w.int('m', 0, 1023)
+    from harness.common import abstract_cell
+    root = abstract_cell(w, 'root')
+    leads = [Child(f'lead{i}') for i in range(lead)]
+    tail_ref = Child('after')
+    kids = leads + ([root] if present else []) + [tail_ref]
+    s = mk_slice(w, E.lit('1' if present else '0') + extra + rest, kids, ref_offset=lead)
+    calls = []
+    SENT = ({'sentinel': 1}, ['extras'])
+
+    def stub(cs, key_length, xd, yd):
+        calls.append((cs, key_length, xd, yd))
+        return SENT
+    xd = lambda c: ('X', c)
+    seen_y = []
+
+    def yd(c):
+        seen_y.append(c)
+        return ('Y', c.load_bits(8))
+    real = P_.parse_hashmap_aug          # replaced by hand (in the native world too: the stub IS the callee's contract here)
+    P_.parse_hashmap_aug = stub
+    try:
+        k_, got = call(s.load_hashmap_aug_e, m, xd, yd if ydes else None)
+    finally:
+        P_.parse_hashmap_aug = real
+    w.claim(f'does not raise ({got if k_ != "ok" else ""})', k_ == 'ok')
+    if k_ != 'ok':
+        return
+    if present:
+        w.claim('the tree parser is called once, on the referenced root cell, with the key length and the deserializers',
+                len(calls) == 1 and w.eq_seq(bits_of(w, calls[0][0]), bits_of(w, root)) and calls[0][1] is m
+                and calls[0][2] is xd and calls[0][3] is (yd if ydes else None))
+        w.claim('returns the tree parser\'s result', got is SENT)
+        w.claim('consumed exactly the root reference', s.ref_offset == lead + 1)
+    else:
+        w.claim('the tree parser is not called', not calls)
+        w.claim('no leaves', isinstance(got, tuple) and got[0] == {})
+        w.claim('no reference consumed', s.ref_offset == lead)
+        if ydes:
+            w.claim('returns the root extra', len(got[1]) == 1 and got[1][0][0] == 'Y' and w.eq_seq(w.seq_of(got[1][0][1]), extra))
+    if ydes:
+        w.claim('the extra deserializer ran once, on this slice', len(seen_y) == 1 and seen_y[0] is s)
+        w.claim('head bit and extra:Y consumed, the rest stays', w.eq_seq(bits_of(w, s), rest))
+    else:
+        w.claim('only the head bit consumed (no extra deserializer: the caller reads it)', w.eq_seq(bits_of(w, s), extra + rest))
+    w.claim('references of the slice untouched', same_objects(s.refs, kids))
+
+
 # ---- bounded stand-ins: whole trees ---------------------------------------------------------------------------------
 
 def _lib_cell_of(sc):
